@@ -385,3 +385,9 @@ mod profile_rules {
         assert_eq!(res, Ok(true));
     }
 }
+
+#[cfg(precis_verif)]
+#[allow(missing_docs)]
+pub fn verif_get_decomposition_mapping(cp: u32) -> Option<u32> {
+    get_decomposition_mapping(cp)
+}
